@@ -3,7 +3,7 @@
    (schema, data) pair and its outcome class is compared with the class the
    harness observed on /repo's implementation. *)
 From Coq Require Import ZArith QArith List String Ascii Bool NArith Uint63.
-From GSP Require Import Base.Prelude Base.Decode Schema.Json Schema.Regex Schema.Model.
+From GSP Require Import Base.Prelude Base.Decode Schema.Json Schema.JsonText Schema.Regex Schema.Model.
 Import ListNotations.
 Open Scope list_scope.
 
@@ -57,3 +57,29 @@ Definition run_case (c : scase) : res unit :=
 Definition smismatches (cs : list scase) : list int :=
   fold_right (fun c acc =>
       if Z.eqb (class_of_res (run_case c)) (Uint63.to_Z (sc_obs c)) then acc else sc_id c :: acc) [] cs.
+
+(* ---- text cases: the model parses the very bytes the implementation received ---- *)
+Record tcase := { tc_id : int; tc_mode : int; tc_schema : string; tc_data : string; tc_obs : int }.
+Definition mkt (id mode : int) (schema data : string) (obs : int) : tcase :=
+  {| tc_id := id; tc_mode := mode; tc_schema := schema; tc_data := data; tc_obs := obs |}.
+
+Definition run_tcase (c : tcase) : res unit :=
+  let m := Uint63.to_Z (tc_mode c) in
+  if Z.eqb m 0 then validate_text (tc_data c) (tc_schema c)
+  else processor_validate_text (Z.eqb m 1) (tc_data c) (tc_schema c).
+
+Definition tmismatches (cs : list tcase) : list int :=
+  fold_right (fun c acc =>
+      if Z.eqb (class_of_res (run_tcase c)) (Uint63.to_Z (tc_obs c)) then acc else tc_id c :: acc) [] cs.
+
+(* the harness's own decoding of a text (used for the term cases) against the Coq parser *)
+Definition opt_json_eqb (a b : option json) : bool :=
+  match a, b with
+  | Some x, Some y => json_eqb x y && json_eqb y x
+  | None, None => true
+  | _, _ => false
+  end.
+Definition pmismatches (ps : list (int * string * option json)) : list int :=
+  fold_right (fun p acc =>
+      let '(id, text, term) := p in
+      if opt_json_eqb (parse_json text) term then acc else id :: acc) [] ps.
